@@ -51,6 +51,7 @@ type Scenario struct {
 	BOM            bool     `json:"bom,omitempty"`       // the file (and its comment-free form) starts with a UTF-8 byte order mark
 	MixedEOL       uint64   `json:"mixed_eol,omitempty"` // != 0: every line end is LF or CRLF, chosen per line from this seed
 	BareCR         bool     `json:"bare_cr,omitempty"`   // lone CR line ends (the grammar accepts them): the whole file without MixedEOL, some lines with it
+	NoLead         bool     `json:"no_lead,omitempty"`   // no comment line at the top: the first non-ASCII byte comes after code
 	NoFinalNL      bool     `json:"no_final_nl,omitempty"`
 	Bulk           int      `json:"bulk,omitempty"`       // >0: blocks of this many own-line comment lines are inserted (large files)
 	Light          bool     `json:"light,omitempty"`      // no very long comments (used with -d, whose parser trace is enormous)
@@ -324,8 +325,10 @@ func (s *Scenario) materialise0() (src []byte, plain []byte) {
 		pl2 = append(pl2, []byte(""))
 		size += len(l) + 1
 	}
-	dl = append(dl, append([]byte("; "), commentText(r, encAt(), s.Light)...))
-	pl2 = append(pl2, []byte(""))
+	if !s.NoLead {
+		dl = append(dl, append([]byte("; "), commentText(r, encAt(), s.Light)...))
+		pl2 = append(pl2, []byte(""))
+	}
 	for li, l := range lines {
 		size += len(l) + 8
 		d := []byte(l)
